@@ -31,6 +31,7 @@ type Obligation struct {
 // Exec is the symbolic execution of one verification target.
 type Exec struct {
 	atCallSeen map[*Clause]int
+	revealAll  bool
 	g         *Gen
 	w         *World
 	obls      []*Obligation
@@ -367,6 +368,9 @@ func (f *frame) run(entryReach string, heap *Heap) {
 		for _, ins := range b.Instrs {
 			if d, ok := ins.(*ssa.DebugRef); ok && !d.IsAddr {
 				if id, ok := d.Expr.(*ast.Ident); ok {
+					if _, isConst := d.X.(*ssa.Const); isConst && x.w.DefPos[id.Pos()] {
+						continue // the declaration's reference holds the stale zero value
+					}
 					f.names[id.Name] = append(f.names[id.Name], d.X)
 				}
 			}
@@ -771,6 +775,14 @@ func (f *frame) enterCutLoop(n *node, heap *Heap) *Heap {
 		n.env[phi] = x.havoc(phi.Type(), "loop."+phi.Comment)
 	}
 	// an enclosing cut loop sees everything this loop writes: handled by activeEpochs
+	// The arbitrary iteration is reached under a reach variable of its own (it implies the
+	// reach of the loop's entry, so earlier path facts carry over): the invariant assumed
+	// below must not be visible to the obligations that establish it on entry. With the
+	// entry's own reach as guard, a conjunct that mentions nothing the loop havocs (or
+	// that is plainly false) would discharge its own entry obligation.
+	head := x.g.Const("loophead", SortBool)
+	x.g.Assume(implies(head, n.reach))
+	n.reach = head
 	// assume the invariant for the arbitrary iteration
 	n.heap = nh
 	for _, inv := range li.invs {
@@ -820,12 +832,15 @@ func (f *frame) evalInvariant(li *loopInfo, inv *Clause, at *node, slot int, hea
 	binder := map[string]Val{}
 	for _, b := range inv.Binder {
 		var found *ssa.Phi
+		// x_cur names the current value of a parameter x that the loop assigns (the plain
+		// name is the entry value, as everywhere in a contract)
+		bname := strings.TrimSuffix(b.Name, "_cur")
 		for _, ins := range li.header.Instrs {
 			phi, ok := ins.(*ssa.Phi)
 			if !ok {
 				break
 			}
-			if phi.Comment == b.Name || (b.Name == "idx_" && phi.Comment == "rangeindex") {
+			if phi.Comment == bname || (b.Name == "idx_" && phi.Comment == "rangeindex") {
 				found = phi
 			}
 		}
@@ -839,6 +854,11 @@ func (f *frame) evalInvariant(li *loopInfo, inv *Clause, at *node, slot int, hea
 		}
 		// a local that is not loop-carried: unique SSA definition
 		vs := f.names[b.Name]
+		if os.Getenv("IONVC_DEBUGINV") != "" {
+			for _, v := range vs {
+				fmt.Fprintf(os.Stderr, "  names[%s] has %s = %s\n", b.Name, v.Name(), v.String())
+			}
+		}
 		uniq := map[ssa.Value]bool{}
 		for _, v := range vs {
 			uniq[v] = true
@@ -853,13 +873,25 @@ func (f *frame) evalInvariant(li *loopInfo, inv *Clause, at *node, slot int, hea
 					}
 				}
 			}
-			if len(phis) != 1 {
+			if len(phis) == 1 {
+				uniq = map[ssa.Value]bool{phis[0]: true}
+			} else if v := f.localAt(li.header.Instrs[0], bname); v != nil {
+				// the definition that reaches the loop head
+				uniq = map[ssa.Value]bool{v: true}
+			} else {
 				unsup("invariant of %s names %q which is neither loop-carried in loop%d nor uniquely defined", f.fn.Name(), b.Name, li.ordinal)
 			}
-			uniq = map[ssa.Value]bool{phis[0]: true}
 		}
 		for v := range uniq {
 			binder[b.Name] = f.lookup(at, v)
+			if os.Getenv("IONVC_DEBUGINV") != "" {
+				fmt.Fprintf(os.Stderr, "  binder %s resolves to %s = %s\n", b.Name, v.Name(), v.String())
+			}
+		}
+	}
+	if os.Getenv("IONVC_DEBUGINV") != "" {
+		for k, v := range binder {
+			fmt.Fprintf(os.Stderr, "inv %s loop%d.%d slot %d binder %s = %v (type %v)\n", f.fn.Name(), li.ordinal, inv.N, slot, k, v.C, v.T)
 		}
 	}
 	return x.evalClause(f, inv, heap, f.entryHeap, f.args, nil, binder)
